@@ -166,10 +166,13 @@ func c10PanicVal(a, name string) any {
 	if a == "pe" {
 		return c10PanicErr{name}
 	}
+	if a == "pn" {
+		return nil // panic(nil): since go 1.21 recovered as *runtime.PanicNilError (at most one per call: it has no identity)
+	}
 	return name
 }
 
-func c10IsPanic(a string) bool { return a == "p" || a == "pe" }
+func c10IsPanic(a string) bool { return a == "p" || a == "pe" || a == "pn" }
 
 func c10PanicName(p any) string {
 	if pe, ok := p.(c10PanicErr); ok {
@@ -309,6 +312,16 @@ func c10Exec(op []string) string {
 	gp, gx := -1, -1
 	if v := cfg.Str("gp", "-"); v != "-" {
 		gp = verifh.Atoi(v)
+	}
+	// gq=k: the generator ends by runtime.Goexit() before sending item k; gk=n: its panic (gp) is panic(nil)
+	gq := cfg.Int("gq", -1)
+	gpNil := cfg.Str("gk", "") == "n"
+	var nilBy atomic.Value
+	nilBy.Store("")
+	noteNil := func(a, who string) {
+		if a == "pn" {
+			nilBy.Store(who)
+		}
 	}
 	if v := cfg.Str("gx", "-"); v != "-" {
 		gx = verifh.Atoi(v)
@@ -458,9 +471,17 @@ func c10Exec(op []string) string {
 			if i == gx {
 				endCtx()
 			}
+			if i == gq {
+				ev.fire("ge", "ge")
+				runtime.Goexit()
+			}
 			if i == gp {
 				atomic.AddInt32(&panicked, 1)
 				ev.fire("gp", "gp")
+				if gpNil {
+					nilBy.Store("pg")
+					panic(nil)
+				}
 				panic("pg")
 			}
 			if i < n {
@@ -485,6 +506,7 @@ func c10Exec(op []string) string {
 			if !common("m"+is, a, cancel, wr.Write) {
 				atomic.AddInt32(&panicked, 1)
 				ev.fire("pm"+is, "pm"+is, "pm")
+				noteNil(a, "pm"+is)
 				panic(c10PanicVal(a, "pm"+is))
 			}
 		}
@@ -500,6 +522,7 @@ func c10Exec(op []string) string {
 			case c10IsPanic(a):
 				atomic.AddInt32(&panicked, 1)
 				ev.fire("pm"+is, "pm"+is, "pm")
+				noteNil(a, "pm"+is)
 				panic(c10PanicVal(a, "pm"+is))
 			case a[0] == 'c':
 				k := verifh.Atoi(a[1:])
@@ -546,6 +569,7 @@ func c10Exec(op []string) string {
 				if !common("r", a, cancel, write) {
 					atomic.AddInt32(&panicked, 1)
 					ev.fire("rp", "rp")
+					noteNil(a, "pr")
 					panic(c10PanicVal(a, "pr"))
 				}
 			}
@@ -558,6 +582,9 @@ func c10Exec(op []string) string {
 		defer func() {
 			if p := recover(); p != nil {
 				ev.fire("ret", "ret")
+				if _, isNil := p.(*runtime.PanicNilError); isNil && nilBy.Load().(string) != "" {
+					p = nilBy.Load().(string)
+				}
 				resCh <- "panic:" + c10PanicName(p)
 			}
 		}()
@@ -769,6 +796,7 @@ type c10Cfg struct {
 	api    string
 	ws     string // text of w= if it is not the plain effective count: "def", "0", "-3", "5,2" (w = the effective count)
 	co     int    // position of the WithContext option + 1 (0 = default: last)
+	extra  string // further key=value tokens appended to the line (gq=, gk=)
 	ck     string // kind of the context: "" / "c" cancel context, "d" deadline context, "v" derived value context
 	n, w   int
 	ctx    string
@@ -814,6 +842,7 @@ func (c c10Cfg) String() string {
 	if c.ck != "" && c.ck != "c" && c.ctx != "none" {
 		line += " ck=" + c.ck
 	}
+	line += c.extra
 	return line
 }
 
@@ -1100,7 +1129,23 @@ func c10VaryErr(r *verifh.Rng, c c10Cfg) c10Cfg {
 func c10Outcomes(r *verifh.Rng) []c10Cfg {
 	var out []c10Cfg
 	it := strconv.Itoa
-	for _, x := range []string{"p", "pe", "q", "y"} {
+	// the generator ends by Goexit / panic(nil) at every position
+	for _, api := range []string{"mr", "void", "each", "chan"} {
+		for k := 0; k <= 2; k++ {
+			c := c10Cfg{api: api, n: 2, w: 2, ctx: "none", gp: -1, gx: -1, extra: " gq=" + it(k)}
+			c.m = [][]string{{"w1"}, {"w2"}}
+			if api != "each" {
+				c.r = []string{"a", "w7"}
+			}
+			out = append(out, c)
+			if api != "chan" {
+				d := c10Clone(c)
+				d.gp, d.extra = k, " gk=n"
+				out = append(out, d)
+			}
+		}
+	}
+	for _, x := range []string{"p", "pe", "pn", "q", "y"} {
 		for _, api := range []string{"mr", "void", "chan"} {
 			for _, w := range []int{1, 2} {
 				c := c10Cfg{api: api, n: 2, w: w, ctx: "none", gp: -1, gx: -1}
